@@ -25,6 +25,7 @@ type c11User struct {
 	repo   repository.TestedRepo
 	rc     *cache.RepoCache
 	idenN  int
+	other  entity.Id // a second author of this user's repository
 	staged map[entity.Id]bool // bugs holding operations that are not committed yet
 	acts   []map[string]any   // the session as the model sees it
 	obs    []map[string]any   // after each action: ids in the excerpt map / in the index
@@ -383,11 +384,49 @@ func runC11(c *runCtx) {
 				u.act("new", string(b.Id()))
 			case x < 6:
 				if b := editable(); b != nil {
-					if _, _, err := b.AddComment("comment " + randHexId(r, 4)); err != nil {
-						panic(err)
+					tokN++
+					tok := fmt.Sprintf("tok%dq%s", tokN, randHexId(r, 6))
+					tokens = append(tokens, tok)
+					switch r.intn(3) {
+					case 0:
+						// a comment whose text is searched for
+						if _, _, err := b.AddComment("comment zz9 " + tok); err != nil {
+							panic(err)
+						}
+						act = "comment(" + b.Id().Human() + ")"
+					case 1:
+						// the text of a comment is replaced: the old words must leave the index, the new ones enter it
+						cms := b.Snapshot().Comments
+						cm := pickOne(r, cms)
+						if _, err := b.EditComment(cm.CombinedId(), "edited zz9 "+tok); err != nil {
+							panic(err)
+						}
+						act = "editcomment(" + b.Id().Human() + ")"
+					case 2:
+						// operations of two authors stored by one commit (what a bridge import stages)
+						if u.other == "" {
+							o, err := u.rc.Identities().New("ghost of "+u.name, "ghost"+u.name+"@example.com")
+							if err != nil {
+								panic(err)
+							}
+							u.other = o.Id()
+						}
+						ghost, err := u.rc.Identities().Resolve(u.other)
+						if err != nil {
+							panic(err)
+						}
+						if _, _, err := b.AddComment("mine zz9 " + tok); err != nil {
+							panic(err)
+						}
+						if _, _, err := b.AddCommentRaw(ghost, time.Now().Unix(), "theirs zz9 "+tok, nil, nil); err != nil {
+							panic(err)
+						}
+						if _, _, err := b.AddComment("mine again zz9 " + tok); err != nil {
+							panic(err)
+						}
+						act = "two-authors(" + b.Id().Human() + ")"
 					}
 					b.CommitAsNeeded()
-					act = "comment(" + b.Id().Human() + ")"
 					u.act("commit", string(b.Id()))
 				}
 			case x < 8:
